@@ -54,6 +54,8 @@ def generate(tier, seed, work, stats):
             if i % 3 == 0:
                 cases.append(dict(kind=kind, calls=calls, spool="str", ypool="ab", perm=None, family="FAGen"))
     cases += c01.random_cases(1500 if tier == "quick" else 20000, seed + 4)
+    # P3: the calls the repository's own tests make, re-judged by the trace specification
+    cases += [c for c in core.record_tests(["/repo/pyformlang"], work, {"is_empty", "is_deterministic", "is_acyclic"}, stats) if "A" in c["recorded"][0]]
     return cases
 
 
